@@ -170,6 +170,12 @@ class Ctx:
         self.findings = load_findings(pid)
         self.mod = None
         self._built = set()
+        # extension streams: model coverage beyond the property's stated domain (e.g. class
+        # instances in the diff / delta models).  Failures and breaks recorded while an
+        # extension is active are written to the evidence file and printed as EXTENSION-NOTE
+        # lines; they never produce a VIOLATION (the property's text does not speak about them).
+        self._ext = None
+        self.extensions = {}
 
     # ---- bookkeeping -----------------------------------------------------
     @property
@@ -196,9 +202,43 @@ class Ctx:
         return time.time() - self.t0
 
     # ---- outcome reporting ----------------------------------------------
+    def extension(self, name):
+        """context manager: `with ctx.extension("Obj"): stream(ctx)`"""
+        ctx = self
+
+        class _E:
+            def __enter__(self_):
+                ctx._ext = name
+                ctx.extensions.setdefault(name, {"failures": [], "breaks": [], "n_failures": 0, "n_breaks": 0,
+                                                 "corr_cases": 0, "corr_mismatches": 0, "evaluations": 0})
+                self_.c0, self_.m0, self_.e0 = ctx.corr_cases, ctx.corr_mismatch, ctx.evaluations
+                return ctx
+
+            def __exit__(self_, et, ev, tb):
+                x = ctx.extensions[name]
+                x["corr_cases"] += ctx.corr_cases - self_.c0
+                x["corr_mismatches"] += ctx.corr_mismatch - self_.m0
+                x["evaluations"] += ctx.evaluations - self_.e0
+                # extension traffic is not part of the property's own correspondence totals
+                ctx.corr_cases, ctx.corr_mismatch = self_.c0, self_.m0
+                ctx._ext = None
+                if et is not None and issubclass(et, Exception):
+                    import traceback
+                    x["breaks"].append({"kind": "harness", "detail": {"error": repr(ev), "trace": "".join(traceback.format_tb(tb))[-1500:]}})
+                    x["n_breaks"] += 1
+                    return True
+                return False
+        return _E()
+
     def fail(self, case, what):
         """`case` (a JSON-able dict) is a concrete input on which the property
         itself fails on the implementation."""
+        if self._ext:
+            x = self.extensions[self._ext]
+            x["n_failures"] += 1
+            if len(x["failures"]) < 5:
+                x["failures"].append({"what": what, "case": case})
+            return "extension"
         for f in self.findings:
             if f.get("status") != "open":
                 continue
@@ -215,6 +255,12 @@ class Ctx:
         return "new"
 
     def break_(self, kind, detail):
+        if self._ext:
+            x = self.extensions[self._ext]
+            x["n_breaks"] += 1
+            if len(x["breaks"]) < 5:
+                x["breaks"].append({"kind": kind, "detail": detail})
+            return
         self.breaks.append({"kind": kind, "detail": detail})
 
     # ---- Coq -------------------------------------------------------------
@@ -510,6 +556,7 @@ def finish(ctx):
             "breaks": ctx.breaks[:10],
             "known_findings_seen": {k: v["n"] for k, v in ctx.known_seen.items()},
             "direct_oracle_failures": len(ctx.failures),
+            "extensions": ctx.extensions,
             **ctx.notes,
         },
         "assumptions": list(getattr(mod, "ASSUMPTIONS", [])),
@@ -522,6 +569,11 @@ def finish(ctx):
     os.makedirs(evdir, exist_ok=True)
     with open(os.path.join(evdir, ctx.pid + ".json"), "w") as f:
         json.dump(ev, f, indent=1, default=repr)
+    for name, x in sorted(ctx.extensions.items()):
+        if x["n_failures"] or x["n_breaks"]:
+            lines.append("EXTENSION-NOTE: property=%s extension=%s (outside the property's stated domain; not a violation): "
+                         "%d oracle failure(s), %d model/implementation disagreement(s) or break(s); details in the evidence file"
+                         % (ctx.pid, name, x["n_failures"], x["n_breaks"]))
     for l in lines:
         print(l)
     print("%s %s tier=%s seed=%d proof=%d/%d corr=%d cases (%d mismatches) oracle_evals=%d failures=%d known=%d wall=%.1fs" % (
